@@ -578,6 +578,99 @@ def frag_finalize(tree, out):
         ''', '_finalize')
 
 
+ASSEMBLED = """(* ---- assembled from the rules above, in the statement order shape-checked by the generator ---- *)
+(* _push_condition: guard, append to the current level, open a new level *)
+Definition gen_push (pw : pid -> Z) (c : cond) (s : st) : option st :=
+  if gen_pred_too_wide (is_oth c) (match c with CP p => pw p | COth => 0 end) then None
+  else match stk s with
+       | [] => None
+       | cur :: rest => Some (mkSt ([] :: (c :: cur) :: rest) (pmap s) (cmap s))
+       end.
+
+(* _build: _current_select, then _check_and_add_pred_set (raise on the first conflicting earlier set, else
+   record the set), then record (select, rhs) *)
+Definition gen_build (l : lhs) (pl : payload) (s : st) : option st :=
+  match gen_current_select (rev (map (@rev cond) (stk s))) with
+  | (None, _) => None
+  | (Some sel, pred_set) =>
+      if existsb (fun test_set => gen_in_conflict pred_set test_set) (am_get (cmap s) l) then None
+      else Some (mkSt (stk s) (am_app (pmap s) l (sel, pl)) (am_app (cmap s) l pred_set))
+  end.
+
+(* _finalize for one target *)
+Definition gen_fin_one (d : defaults) (kv : lhs * list (bexpr * payload)) : lhs * fexpr :=
+  match fst kv with
+  | LM m =>
+      (LM m,
+       match snd kv with
+       | [] => FMem VZero VZero VZero
+       | (p0, pl0) :: rest =>
+           let '(en, ad, da) :=
+             fold_left (fun acc pr => gen_mem_step (fst pr) (pl_addr (snd pr)) (pl_val (snd pr)) (pl_en (snd pr)) acc)
+                       rest (gen_mem_init p0 (pl_addr pl0) (pl_val pl0) (pl_en pl0)) in
+           FMem en ad da
+       end)
+  | LW t =>
+      (LW t,
+       FVal (fold_left (fun acc pr => gen_fin_step (fst pr) (pl_val (snd pr)) acc) (snd kv)
+               (match gen_default (match t with TReg _ => true | TWire _ => false end) true
+                                  (match dflt_get d t with Some _ => true | None => false end) with
+                | Some DDeclared => match dflt_get d t with Some r => VLeaf r | None => VZero end
+                | Some DSelf => match t with TReg i => VSelf i | TWire i => VSelf (-1 - i) end
+                | Some DZero => VZero
+                | None => VZero
+                end)))
+  end.
+
+(* `with conditional_assignment(defaults=d): prog` -- the with-protocol threads the module state *)
+Section GenElab.
+  Variable pw : pid -> Z.
+  Fixpoint gen_elab_tree (t : ctree) (s : st) {struct t} : option st :=
+    match t with
+    | With p body =>
+        match gen_push pw (CP p) s with
+        | None => None
+        | Some s1 =>
+            match (fix go (l : list ctree) (s : st) {struct l} : option st :=
+                     match l with
+                     | [] => Some s
+                     | x :: r => match gen_elab_tree x s with Some s' => go r s' | None => None end
+                     end) body s1 with
+            | None => None
+            | Some s2 => pop s2
+            end
+        end
+    | Otherwise body =>
+        match gen_push pw COth s with
+        | None => None
+        | Some s1 =>
+            match (fix go (l : list ctree) (s : st) {struct l} : option st :=
+                     match l with
+                     | [] => Some s
+                     | x :: r => match gen_elab_tree x s with Some s' => go r s' | None => None end
+                     end) body s1 with
+            | None => None
+            | Some s2 => pop s2
+            end
+        end
+    | Assign t r => gen_build (LW t) (PVal r) s
+    | MemAssign m a d e => gen_build (LM m) (PMem a d e) s
+    end.
+
+  Fixpoint gen_elab_forest (l : list ctree) (s : st) {struct l} : option st :=
+    match l with
+    | [] => Some s
+    | x :: r => match gen_elab_tree x s with Some s' => gen_elab_forest r s' | None => None end
+    end.
+
+  Definition gen_elab (prog : list ctree) (d : defaults) : option (list (lhs * fexpr)) :=
+    match gen_elab_forest prog init_st with
+    | None => None
+    | Some s => Some (map (gen_fin_one d) (pmap s))
+    end.
+End GenElab."""
+
+
 @generator('CondRules')
 def gen_cond_rules(repo):
     path = os.path.join(repo, 'pyrtl', 'conditional.py')
@@ -592,4 +685,7 @@ def gen_cond_rules(repo):
     frag_state_machine(tree, out)
     frag_current_select(tree, out)
     frag_finalize(tree, out)
+    # every fragment above translated and every shape check passed: assemble the functions of the state
+    # machine from the regenerated rules, in the statement order that was just checked
+    out.append(ASSEMBLED)
     return '\n\n'.join(out) + '\n'
